@@ -151,8 +151,19 @@ func VH_C01_History() {
 	other := vhC01Engine(name2)
 	tag := "tpl:" + name + " other:" + name2 + " hist:"
 	for i := 0; i < h; i++ {
-		op := symChoice(9)
+		op := symChoice(11)
 		switch op {
+		case 9: // configuration changed and restored
+			e.SetCache(false)
+			vhRender(e, name2, ctx)
+			vhRender(e, name, ctx)
+			e.SetCache(true)
+			tag += "C"
+		case 10:
+			e.SetDevelopmentMode(true)
+			vhRender(e, name, ctx)
+			e.SetDevelopmentMode(false)
+			tag += "D"
 		case 8: // a garbage collection: sync.Pool contents are dropped
 			runtime.GC()
 			runtime.GC()
